@@ -152,6 +152,18 @@ def repo_head(repo):
         return 'unknown'
 
 
+def repo_state(repo):
+    """HEAD plus a hash of the uncommitted differences (the checks run
+    whatever is in the working tree)."""
+    import hashlib
+    try:
+        d = subprocess.run(['git', '-C', repo, 'diff', 'HEAD'],
+                           capture_output=True, timeout=60).stdout
+        return repo_head(repo) + ':' + hashlib.sha1(d).hexdigest()[:12]
+    except Exception:
+        return 'unknown'
+
+
 def write_replay(prop, eng, plan, violation, repo, tried):
     os.makedirs(os.path.join(VERIF, 'replays'), exist_ok=True)
     body = {'property': prop, 'engine': eng.ENGINE, 'seed': plan['seed'],
@@ -206,6 +218,7 @@ def main():
     args = ap.parse_args()
     _ensure_hashseed()
     repo = _setup_path()
+    state0 = repo_state(repo)
     t0 = time.time()
     prop = args.property
     engname, eng_kw = ENGINES[prop]
@@ -296,6 +309,13 @@ def main():
                     else 'full event-log digest',
                     'worker_counts': [args.workers or 16, 1]}
         if bad or bad2 or bad3:
+            state1 = repo_state(repo)
+            if state1 != state0:
+                print(f'HARNESS-ERROR: the working tree of {repo} changed '
+                      f'while the check was running ({state0} -> {state1}): '
+                      'the batch and the fresh-interpreter self-test ran two '
+                      'different programs; run the check again')
+                return 2
             print(f'HARNESS-ERROR: nondeterministic runs: rerun={bad} '
                   f'fresh/hashseed1={bad2} fresh/same-hashseed={bad3}')
             return 2
